@@ -193,6 +193,22 @@ def run_history(case):
                 if lost or last_reply[0] is None:
                     continue
                 N.deliver(rig.conn, last_reply[0])
+            elif kind == 'noise':
+                # other traffic on the same connection: a signal, or a method call from a peer, whose OWN serial happens to
+                # equal the serial of one of our pending calls - neither is a reply and neither completes anything
+                if lost:
+                    continue
+                pend_serials = [c.serial for c in calls if c.expected is None] or [1]
+                sn = pend_serials[op[2] % len(pend_serials)]
+                if op[1] == 'signal':
+                    raw = R.encode_message(4, sn, {1: '/p', 2: 'x.y', 3: 'Sig', 7: ':1.9'}, 's', ['n'])
+                else:
+                    raw = R.encode_message(1, sn, {1: '/not/exported', 2: 'x.y', 3: 'M', 7: ':1.9', 6: ':1.1'}, 'u', [sn])
+                N.deliver(rig.conn, raw)
+                rig.sent_messages()      # (the error reply to the foreign call, if any, is not our subject)
+                if rig.transport.disconnected:
+                    out.append(Disc('connection-dropped-by-unrelated-message', where))
+                    break
             elif kind == 'advance':
                 now = rig.clock.seconds() + op[1]
                 # model: every pending deadline <= now expires, earliest first
@@ -268,6 +284,8 @@ def classify_history(case):
         elif op[0] == 'dup':
             interesting = True
             labels.append('duplicate')
+        elif op[0] == 'noise':
+            labels.append('unrelated_traffic')
         elif op[0] == 'advance':
             labels.append('advance')
             if any(o[0] == 'call' and o[1]['timeout'] for o in case['ops']):
@@ -295,8 +313,11 @@ def history(draw, tier):
     ops = []
     n = draw(st.integers(2, 25))
     for _ in range(n):
-        k = draw(st.sampled_from(['call', 'call', 'call', 'reply', 'reply', 'reply', 'error', 'advance', 'dup',
+        k = draw(st.sampled_from(['call', 'call', 'call', 'reply', 'reply', 'reply', 'error', 'advance', 'dup', 'noise',
                                   'reply2', 'lose' if draw(st.integers(0, 5)) == 0 else 'reply']))
+        if k == 'noise':
+            ops.append(['noise', draw(st.sampled_from(['signal', 'call'])), draw(st.integers(0, 3))])
+            continue
         if k == 'call':
             sig, trees = draw(_small_body)
             rs = draw(st.sampled_from(['unchecked', 'unchecked', 'matching', 'mismatching', 'prefix', 'empty']))
